@@ -408,7 +408,8 @@ impl<E: Elem> Real<E> {
                 let l: L<E> = match (rust, n) {
                     (true, 0) => List::from(Vec::new()),
                     (true, 1) => List::from([E::mk(a)]),
-                    (true, _) => List::from(vec![E::mk(a), E::mk(b)]),
+                    (true, _) if a == 0 => List::from(vec![E::mk(a), E::mk(b)]),
+                    (true, _) => List::from(&[E::mk(a), E::mk(b)][..]),
                     (false, 0) => s.lit0.call(),
                     (false, 1) => s.lit1.call(E::mk(a)),
                     (false, _) => s.lit2.call(E::mk(a), E::mk(b)),
